@@ -1158,6 +1158,107 @@ def main_score(write=True):
     return _regen(translate_score, GEN_SCORE, SNAP_SCORE, write)
 
 
+HEADER_NEIGH = """/-
+  GENERATED by harness/py2lean.py from the source text of /repo on every check run — do not edit.
+  `KNeighbors.predict` (neighbors.py) after the k-d tree query: the index plumbing and the reduction.  The tree is abstract: `tree_query qs k`
+  gives, per query point, the indices of its k nearest data points, nearest first (for k = 1 SciPy returns them as a 1-D array, which is what the
+  `indices.ndim == 1` branch is about: `flat1` says which form the query returned).  Props/C15.lean proves it equal to the model.
+-/
+import VerdeModel.Model.Neighbors
+namespace Verde.Gen
+open Verde
+
+/-- What `cKDTree.query(points, k)[1]` returns: a 1-D array for k = 1, else one row of k indices per query point. -/
+inductive QueryIdx where
+  | flat (i : List Nat)
+  | rows (i : List (List Nat))
+
+"""
+GEN_NEIGH = os.path.join(VERIF, "lean", "VerdeModel", "Gen", "Neighbors.lean")
+SNAP_NEIGH = os.path.join(VERIF, "lean", "VerdeModel", "GenSnapshot", "Neighbors.lean.txt")
+
+
+def translate_neighbors():
+    path = "verde/neighbors.py"
+    src = open(os.path.join(REPO, path)).read()
+    tree = ast.parse(src)
+    cls = [n for n in tree.body if isinstance(n, ast.ClassDef) and n.name == "KNeighbors"]
+    fn = [n for n in cls[0].body if isinstance(n, ast.FunctionDef) and n.name == "predict"] if cls else []
+    if not fn:
+        raise Untranslatable("KNeighbors.predict not found")
+    fn = fn[0]
+    b = [x for x in fn.body if not (isinstance(x, ast.Expr) and isinstance(x.value, ast.Constant))]
+    k = 0
+    if isinstance(b[k], ast.Expr) and isinstance(b[k].value, ast.Call) and getattr(b[k].value.func, "id", None) == "check_is_fitted":
+        k += 1
+    lines = []
+    st = b[k]
+    c = st.value if isinstance(st, ast.Assign) else None
+    ok = (isinstance(st, ast.Assign) and isinstance(st.targets[0], ast.Tuple) and len(st.targets[0].elts) == 2 and isinstance(c, ast.Call)
+          and isinstance(c.func, ast.Attribute) and c.func.attr == "query" and isinstance(c.func.value, ast.Attribute) and c.func.value.attr == "tree_"
+          and len(c.args) == 1 and len(c.keywords) == 1 and c.keywords[0].arg == "k" and isinstance(c.keywords[0].value, ast.Attribute)
+          and c.keywords[0].value.attr == "k")
+    if not ok:
+        _fail(st, "predict: distances, indices = self.tree_.query(points, k=self.k)")
+    which = [e.id for e in st.targets[0].elts]
+    if which[1] != "indices":
+        _fail(st, "predict: the second value of query() is the index array")
+    lines.append("let indices := tree_query self_k      -- distances, indices = self.tree_.query(points, k=self.k)")
+    k += 1
+    st = b[k]
+    ok = (isinstance(st, ast.If) and not st.orelse and isinstance(st.test, ast.Compare) and isinstance(st.test.left, ast.Attribute) and st.test.left.attr == "ndim"
+          and _is_name(st.test.left.value, "indices") and isinstance(st.test.ops[0], ast.Eq) and getattr(st.test.comparators[0], "value", None) == 1
+          and len(st.body) == 1 and isinstance(st.body[0], ast.Assign) and _is_name(st.body[0].targets[0], "indices"))
+    if ok:
+        v = st.body[0].value
+        ok = (isinstance(v, ast.Attribute) and v.attr == "T" and isinstance(v.value, ast.Call) and isinstance(v.value.func, ast.Attribute)
+              and v.value.func.attr == "atleast_2d" and _is_name(v.value.args[0], "indices"))
+    if not ok:
+        _fail(st, "predict: if indices.ndim == 1: indices = np.atleast_2d(indices).T")
+    lines += ["let indices : List (List Nat) := (match indices with", "  | .flat i => i.map fun j => [j]      -- indices.ndim == 1: np.atleast_2d(indices).T = one column",
+              "  | .rows i => i)"]
+    k += 1
+    st = b[k]
+    v = st.value if isinstance(st, ast.Assign) and _is_name(st.targets[0], "neighbor_values") else None
+    ok = (isinstance(v, ast.Call) and isinstance(v.func, ast.Attribute) and v.func.attr == "reshape" and _is_name(v.func.value, "np") and len(v.args) == 2
+          and isinstance(v.args[0], ast.Subscript) and isinstance(v.args[0].value, ast.Attribute) and v.args[0].value.attr == "data_"
+          and isinstance(v.args[0].slice, ast.Call) and isinstance(v.args[0].slice.func, ast.Attribute) and v.args[0].slice.func.attr == "ravel"
+          and _is_name(v.args[0].slice.func.value, "indices") and isinstance(v.args[1], ast.Attribute) and v.args[1].attr == "shape"
+          and _is_name(v.args[1].value, "indices"))
+    if not ok:
+        _fail(st, "predict: neighbor_values = np.reshape(self.data_[indices.ravel()], indices.shape)")
+    lines.append("let neighbor_values := indices.map fun row => row.map fun j => self_data.getD j 0      -- np.reshape(self.data_[indices.ravel()], indices.shape)")
+    k += 1
+    st = b[k]
+    v = st.value if isinstance(st, ast.Assign) and _is_name(st.targets[0], "data") else None
+    ok = (isinstance(v, ast.Call) and isinstance(v.func, ast.Attribute) and v.func.attr == "reduction" and _is_name(v.func.value, "self") and len(v.args) == 1
+          and _is_name(v.args[0], "neighbor_values") and len(v.keywords) == 1 and v.keywords[0].arg == "axis" and isinstance(v.keywords[0].value, ast.Constant)
+          and v.keywords[0].value.value in (0, 1))
+    if not ok:
+        _fail(st, "predict: data = self.reduction(neighbor_values, axis=...)")
+    if v.keywords[0].value.value == 1:
+        lines.append("let data := neighbor_values.map self_reduction.apply      -- self.reduction(neighbor_values, axis=1): one value per row (= per query point)")
+    else:
+        lines.append("let data := (List.range ((neighbor_values.headD []).length)).map fun c => self_reduction.apply (neighbor_values.map fun row => row.getD c 0)"
+                     "      -- axis=0: one value per column")
+    k += 1
+    # shape = np.broadcast(*coordinates[:2]).shape; return data.reshape(shape): the query's shape (values in order)
+    rest = b[k:]
+    if not (len(rest) == 2 and isinstance(rest[0], ast.Assign) and _is_name(rest[0].targets[0], "shape") and isinstance(rest[1], ast.Return)
+            and isinstance(rest[1].value, ast.Call) and isinstance(rest[1].value.func, ast.Attribute) and rest[1].value.func.attr == "reshape"
+            and _is_name(rest[1].value.func.value, "data")):
+        _fail(rest[0], "predict: return data.reshape(shape)")
+    lines.append("data      -- return data.reshape(shape): the same values in the query's shape")
+    seg = ast.get_source_segment(src, fn)
+    return (HEADER_NEIGH + f"/-- translated statement by statement from {path}:{fn.lineno}-{fn.end_lineno} (KNeighbors.predict), sha256 {hashlib.sha256(seg.encode()).hexdigest()[:16]} -/\n"
+            "def knnPredict (tree_query : Nat → QueryIdx) (self_data : List Rat) (self_k : Nat) (self_reduction : Red) : List Rat :=\n"
+            + "\n".join("  " + ln for ln in lines) + "\n\nend Verde.Gen\n")
+
+
+def main_neighbors(write=True):
+    return _regen(translate_neighbors, GEN_NEIGH, SNAP_NEIGH, write)
+
+
 HEADER_TREND = """/-
   GENERATED by harness/py2lean.py from the source text of /repo on every check run — do not edit.
   `polynomial_power_combinations` (trend.py); Props/C03.lean proves it equal to the model's explicit monomial order.
